@@ -246,6 +246,15 @@ func vc06Tuples(names []string, max int, bothOrders bool) [][]string {
 	return out
 }
 
+func vc06IndexOf(l []string, s string) int {
+	for i, x := range l {
+		if x == s {
+			return i
+		}
+	}
+	return -1
+}
+
 // menu lists every offer made in the state holding the named transactions.
 func vc06Menu(present []string, maxTx, maxPrevs int, bothOrders bool) []vc06Ev {
 	var out []vc06Ev
@@ -264,6 +273,9 @@ func vc06Menu(present []string, maxTx, maxPrevs int, bothOrders bool) []vc06Ev {
 		}
 		for _, p := range vc06Tuples(present, maxPrevs, bothOrders) {
 			for _, s := range []string{"A", "B1", "B2"} {
+				if s == "A" && len(p) == 2 && vc06IndexOf(present, p[0]) > vc06IndexOf(present, p[1]) {
+					continue // the order of prevs only matters for key-id resolution (signer B): A gets one order per pair
+				}
 				for _, pay := range []string{"right", "none", "wrong"} {
 					out = append(out, vc06Ev{Signer: s, Prevs: p, Pay: pay})
 				}
@@ -379,11 +391,10 @@ func TestVerifC06Histories(t *testing.T) {
 	}
 	frontier := []node{{}}
 	var dryMenu int64
+	var stateNo int
 	defer func() { t.Logf("DRY states=%d offers=%d", stateNo, dryMenu) }()
 	seen := map[string]bool{"": true}
 	var states, transitions int64
-	var stateNo int
-	stateNo = 0
 	maxDepth := 0
 	exhaustive := true
 	for depth := 1; depth <= maxTx+1 && len(frontier) > 0 && exhaustive; depth++ {
